@@ -42,10 +42,10 @@ static IR::Ruleset dropinRs(const char* target, int j, int sub, int content) {
 }
 static IR::Root candidate(int j, int target, int content, int hook) {
   IR::Root d;
-  const char* t0 = target == 1 ? "r1" : target == 2 ? "rX" : "r0";
+  const char* t0 = target == 1 ? "r1" : (target == 2 || target == 5) ? "rX" : "r0";
   d.rulesets.push_back(dropinRs(t0, j, 0, content));
   if (target == 3) d.rulesets.push_back(dropinRs("r1", j, 1, content));
-  if (target == 4) d.rulesets.push_back(dropinRs("rX", j, 1, content));
+  if (target == 4 || target == 6) d.rulesets.push_back(dropinRs("rX", j, 1, content));
   if (hook) d.prekill_hooks.push_back(hk(HOOK_DI_ID(j)));
   return d;
 }
@@ -110,6 +110,15 @@ extern "C" void harness(void) {
     if (kind == 1) ad.remove(tg);
     else {
 #ifdef H_OPS
+      if (target >= 5) {
+        // targets 5 / 6: the unit is compiled against a stale root that still has a ruleset rX the running engine does not
+        // have, and handed to the engine directly: the refusal happens inside Engine::addDropInConfig (after some of the
+        // unit may already have been applied), not in the compiler
+        static IR::Root stale;
+        if (stale.rulesets.empty()) { stale = root; IR::Ruleset rx = root.rulesets[0]; rx.name = "rX"; stale.rulesets.push_back(rx); }
+        auto unit = Config2::compileDropIn(stale, candidate(j, target, content, hook), pcc);
+        ok = (unit && engine->addDropInConfig(tg, std::move(*unit))) ? 1 : 0;
+      } else
       ok = ad.add(tg, candidate(j, target, content, hook)) ? 1 : 0;
 #else
       ok = -1;
